@@ -1,7 +1,7 @@
 (* C02, round 3: the dictionary a frame is decoded with WHEN FRAMES NAME A DICTIONARY ID - executable model of
    dctx->ddict, dctx->dictUses, dctx->dictID, dctx->refMultipleDDicts and dctx->ddictSet of a ZSTD_DCtx
-   (lib/decompress/zstd_decompress.c as of /repo 6b1809d, i.e. after the fixes 70fa663, a24560c, d50580e, b70602d, 9260ac3,
-   8de9dc9): ZSTD_clearDict, ZSTD_getDDict, ZSTD_DCtx_loadDictionary*, ZSTD_DCtx_refDDict (adds to the set when
+   (lib/decompress/zstd_decompress.c as of /repo 3b19e13, i.e. after the fixes 70fa663, a24560c, d50580e, b70602d, 9260ac3,
+   8de9dc9, a891479): ZSTD_clearDict, ZSTD_getDDict, ZSTD_DCtx_loadDictionary*, ZSTD_DCtx_refDDict (adds to the set when
    ZSTD_d_refMultipleDDicts is on), ZSTD_DCtx_refPrefix, ZSTD_DCtx_setParameter(ZSTD_d_refMultipleDDicts), ZSTD_DCtx_reset,
    ZSTD_DCtx_selectFrameDDict, the dictID check of ZSTD_decodeFrameHeader, the frame start of ZSTD_decompressStream
    (zdss_loadHeader: select, ZSTD_getDDict, ZSTD_decompressBegin_usingDDict, ZSTD_decodeFrameHeader) and the frame loop of
@@ -40,9 +40,20 @@ Definition set_add (l : list D) (d : D) : list D :=
 
 Definition set_active (s : ds) : bool := ds_mdd s && negb (match ds_set s with [] => true | _ => false end).
 
-(* ZSTD_DCtx_selectFrameDDict (called when refMultipleDDicts && ddictSet) : tests dctx->ddict only - a used-up prefix
-   (dictUses == ZSTD_dont_use, pointer still there) counts *)
+(* ZSTD_DCtx_selectFrameDDict (called when refMultipleDDicts && ddictSet) : needs a CURRENT dictionary - dctx->ddict set and
+   dictUses != ZSTD_dont_use (fix a891479 : a single-use prefix that has served leaves its pointer behind until the next
+   ZSTD_getDDict ; it used to count, finding C02-dstream-stale-prefix-pointer-selects-ddict) *)
+Definition live (s : ds) : bool := match ds_uses s with DontUse => false | _ => true end.
 Definition select (s : ds) (id : N) : ds :=
+  if set_active s && live s then
+    match ds_dict s with
+    | Some _ => match set_get (ds_set s) id with Some f => with_dict s (Some f) UseIndef | None => s end
+    | None => s
+    end
+  else s.
+
+(* the selection as it was before a891479 (dctx->ddict alone) : kept for the refutation example in DictIdProofs.v only *)
+Definition select_stale (s : ds) (id : N) : ds :=
   if set_active s then
     match ds_dict s with
     | Some _ => match set_get (ds_set s) id with Some f => with_dict s (Some f) UseIndef | None => s end
